@@ -316,12 +316,17 @@ class Body:
                 blk = self.blocks[b]
                 for i, st in enumerate(blk["stmts"]):
                     if st["k"] == "assign":
-                        d[st["place"]["local"]].append((Loc(b, i), "assign" if not st["place"]["proj"] else "partial", st))
+                        pj = st["place"]["proj"]
+                        if pj and pj[0]["k"] == "deref":
+                            continue    # a write through a pointer held in the local: not a definition of the local itself
+                        d[st["place"]["local"]].append((Loc(b, i), "assign" if not pj else "partial", st))
                     elif st["k"] == "set_discr":
                         d[st["place"]["local"]].append((Loc(b, i), "partial", st))
                 t = blk["term"]
                 if t["k"] == "call" and "dest" in t:
-                    d[t["dest"]["local"]].append((Loc(b, len(blk["stmts"])), "call" if not t["dest"]["proj"] else "partial", t))
+                    pj = t["dest"]["proj"]
+                    if not (pj and pj[0]["k"] == "deref"):
+                        d[t["dest"]["local"]].append((Loc(b, len(blk["stmts"])), "call" if not pj else "partial", t))
             self._defs = d
         return self._defs
 
@@ -343,16 +348,32 @@ class Body:
         return None
 
     # -- origin paths -----------------------------------------------------------
-    def expand(self, place, _depth=0):
+    def expand(self, place, _depth=0, alias=False):
         """Origin path of a MIR place: follow single-assignment temporaries that are
         references to / copies of / moves of other places."""
-        base = self._expand_local(place["local"], _depth)
+        proj = place["proj"]
+        local = place["local"]
+        # field of a single-assignment tuple aggregate: continue from the operand stored there
+        hops = 0
+        while proj and proj[0]["k"] == "field" and proj[0].get("tuple") and hops < 6 and not (1 <= local <= self.arg_count):
+            d = self.unique_def(local)
+            if d is None or d[1] != "assign" or d[2]["rv"]["k"] != "aggregate" or d[2]["rv"].get("agg") != "tuple":
+                break
+            op = d[2]["rv"]["ops"][proj[0]["i"]]
+            if op["k"] not in ("copy", "move"):
+                break
+            inner = self.expand(op["place"], _depth + 1, alias)
+            p = inner
+            for e in proj[1:]:
+                p = p.extend(_elem_of(e))
+            return p
+        base = self._expand_local(local, _depth, alias)
         p = base
-        for e in place["proj"]:
+        for e in proj:
             p = p.extend(_elem_of(e))
         return p
 
-    def _expand_local(self, local, depth):
+    def _expand_local(self, local, depth, alias=False):
         if depth > 40 or local == 0 or 1 <= local <= self.arg_count:
             return Path(local)
         d = self.unique_def(local)
@@ -360,14 +381,17 @@ class Body:
             return Path(local)
         rv = d[2]["rv"]
         k = rv["k"]
+        if alias and k in ("use", "cast") and self.local_ty(local).get("k") not in ("ref", "ptr"):
+            # alias mode: a by-value copy is a new object, not an alias of its source
+            return Path(local)
         if k == "ref" or k == "rawptr":
-            return self.expand(rv["place"], depth + 1).extend(("ref",))
+            return self.expand(rv["place"], depth + 1, alias).extend(("ref",))
         if k == "copy_for_deref":
-            return self.expand(rv["place"], depth + 1)
+            return self.expand(rv["place"], depth + 1, alias)
         if k == "use" and rv["op"]["k"] in ("copy", "move"):
-            return self.expand(rv["op"]["place"], depth + 1)
+            return self.expand(rv["op"]["place"], depth + 1, alias)
         if k == "cast" and rv["op"]["k"] in ("copy", "move") and rv["cast"].startswith(("PtrToPtr", "PointerCoercion")):
-            return self.expand(rv["op"]["place"], depth + 1)
+            return self.expand(rv["op"]["place"], depth + 1, alias)
         return Path(local)
 
     def op_path(self, op):
@@ -410,6 +434,136 @@ class Body:
                 continue
             return d
         return None
+
+    # -- reaching definitions / backward slices -----------------------------------
+    def _all_defs(self):
+        """list of (Loc, local, strong, payload-kind, payload); writes through pointers are attributed to the
+        root local of the expanded destination (weak definitions)"""
+        if getattr(self, "_alldefs", None) is None:
+            out = []
+            for b in sorted(self.reachable()):
+                for i, st in enumerate(self.stmts(b)):
+                    if st["k"] == "assign":
+                        pl = st["place"]
+                        if not pl["proj"]:
+                            out.append((Loc(b, i), pl["local"], True, "assign", st))
+                        else:
+                            root = self.expand(pl, alias=True).root
+                            out.append((Loc(b, i), root, False, "assign", st))
+                            if root != pl["local"]:
+                                out.append((Loc(b, i), pl["local"], False, "assign", st))
+                t = self.term(b)
+                if t["k"] == "call" and "dest" in t:
+                    pl = t["dest"]
+                    out.append((Loc(b, len(self.stmts(b))), pl["local"], not pl["proj"], "call", t))
+            self._alldefs = out
+        return self._alldefs
+
+    def reaching(self):
+        """IN[bb] : dict local -> frozenset(def index) of definitions reaching the start of bb (normal+unwind edges)"""
+        if getattr(self, "_reach_in", None) is None:
+            defs = self._all_defs()
+            by_bb = defaultdict(list)
+            for n, d in enumerate(defs):
+                by_bb[d[0].bb].append((n, d))
+            IN = {b: {} for b in self.reachable()}
+            OUT = {}
+
+            def flow(b, inn):
+                cur = {k: set(v) for k, v in inn.items()}
+                for n, d in by_bb.get(b, []):
+                    if d[2]:
+                        cur[d[1]] = {n}
+                    else:
+                        cur.setdefault(d[1], set()).add(n)
+                return cur
+            work = [0]
+            OUT = {}
+            seen_once = set()
+            while work:
+                b = work.pop()
+                out = flow(b, IN[b])
+                if b in seen_once and OUT.get(b) == out:
+                    continue
+                seen_once.add(b)
+                OUT[b] = out
+                for s_ in self._succ_all[b]:
+                    tgt = IN[s_]
+                    changed = False
+                    for k, v in out.items():
+                        if k not in tgt:
+                            tgt[k] = set(v)
+                            changed = True
+                        elif not v <= tgt[k]:
+                            tgt[k] |= v
+                            changed = True
+                    if changed or s_ not in seen_once:
+                        work.append(s_)
+            self._reach_in = IN
+        return self._reach_in
+
+    def defs_reaching(self, loc, local):
+        """definitions (entries of _all_defs) of `local` that reach program point loc (before executing it)"""
+        defs = self._all_defs()
+        cur = set(self.reaching().get(loc.bb, {}).get(local, set()))
+        for n, d in enumerate(defs):
+            if d[0].bb == loc.bb and d[0].i < loc.i and d[1] == local:
+                if d[2]:
+                    cur = {n}
+                else:
+                    cur.add(n)
+        return [defs[n] for n in sorted(cur)]
+
+    def slice_back(self, loc, operands, max_nodes=400):
+        """Backward data slice from operands used at loc.
+        Returns (set of Loc of contributing statements/calls, set of argument locals reached, consts seen)"""
+        seen_defs = set()
+        args = set()
+        work = []
+
+        def push_op(at, op):
+            if op["k"] in ("copy", "move"):
+                pl = op["place"]
+                work.append((at, pl["local"]))
+                for e in pl["proj"]:
+                    if e["k"] == "index":
+                        work.append((at, e["local"]))
+
+        def push_place(at, pl):
+            work.append((at, pl["local"]))
+        for op in operands:
+            push_op(loc, op)
+        visited = set()
+        while work and len(seen_defs) < max_nodes:
+            at, local = work.pop()
+            if (at, local) in visited:
+                continue
+            visited.add((at, local))
+            if 1 <= local <= self.arg_count:
+                args.add(local)
+            for d in self.defs_reaching(at, local):
+                dl = d[0]
+                if dl in seen_defs:
+                    continue
+                seen_defs.add(dl)
+                if d[3] == "call":
+                    for a in d[4]["args"]:
+                        push_op(dl, a)
+                else:
+                    rv = d[4]["rv"]
+                    k = rv["k"]
+                    if k in ("use", "cast", "repeat", "wrap_binder"):
+                        push_op(dl, rv["op"])
+                    elif k == "binop":
+                        push_op(dl, rv["a"]); push_op(dl, rv["b"])
+                    elif k == "unop":
+                        push_op(dl, rv["a"])
+                    elif k in ("ref", "rawptr", "discr", "copy_for_deref"):
+                        push_place(dl, rv["place"])
+                    elif k == "aggregate":
+                        for o in rv["ops"]:
+                            push_op(dl, o)
+        return seen_defs, args
 
     # -- iteration helpers ---------------------------------------------------
     def calls(self, include_cleanup=True):
